@@ -16,8 +16,18 @@ def concretise(res, tier, seed):
     r = streamdiff.search(seed, 1500 if tier == "quick" else 20000, _hint(res))
     if not r.get("found"):
         r = streamdiff.search(seed + 1, 1500 if tier == "quick" else 20000, None)
+    if not r.get("found"):
+        # the handshake boundary: frames delivered in the same segment as the handshake response
+        from . import native_hs
+        r2 = native_hs.search(seed)
+        if r2.get("found"):
+            r2["witness"]["harness"] = "hs"
+            return r2
     return r
 
 
 def replay_witness(w):
+    if w.get("harness") == "hs":
+        from . import native_hs
+        return native_hs.replay_witness(w)
     return streamdiff.replay_witness(w)
